@@ -129,9 +129,19 @@ class WrongTypeError(ErrorNode):
         if not self.__class__ == other.__class__:
             return False
 
+        def same(a: t.Any, b: t.Any) -> bool:
+            # like the generated `__eq__` of the other nodes (which compare tuples): identical values are equal,
+            # also ones which aren't equal to themselves (NaN) or whose `==` is no bool (numpy arrays)
+            if a is b:
+                return True
+            try:
+                return bool(a == b)
+            except Exception:
+                return False
+
         return (
             self.expected == other.expected and
-            self.actual == other.actual and
+            same(self.actual, other.actual) and
             self.info == other.info and
             self._get_cause() == other._get_cause()
         )
